@@ -336,6 +336,9 @@ def run_extraction(ex: Extraction, report):
                 at = m.end()
             else:
                 at = _stmt_end(mk, m.start())
+                if at == 0 or mk[at - 1] != ";":
+                    # unit-typed tail expression: terminate it so that ghost text can follow
+                    text = ";\n" + text
             t.insert(at, "\n" + text + "\n", -tl)
         else:
             raise Unsupported("bad splice position %s" % where)
